@@ -362,20 +362,26 @@ Proof.
     unfold do_pause, do_close, unwrap_chk; destruct (st_fc st); cbn [is_some bind]; eauto.
 Qed.
 
+(* number of files in file_streams / extraction pending, as the dispatcher sees them *)
+Definition files_of (st : state) : N := match st_fc st with Some fc => fc_nfiles fc | None => 0 end.
+Definition extracting_of (st : state) : bool := match st_fc st with Some fc => fc_extracting fc | None => false end.
+
 Lemma step_open_reply st t o :
   command_of t = "open" ->
   exists st' r, step st t o = Ok (st', [r]) /\
-    (spec_open (abs st) = true -> r = RErr EOpenAlready /\ st' = st) /\
+    (spec_open (abs st) = true -> r = RErr (EOpenAlready (files_of st)) /\ st' = st) /\
     (spec_open (abs st) = false ->
        match o_open o with
-       | OpenOk _ _ plugins => r = ROk (OkOpen (N.of_nat (List.length plugins))) /\ abs st' = Some []
+       | OpenOk _ _ plugins => r = ROk (OkOpen (N.of_nat (List.length plugins))) /\ abs st' = Some [] /\
+                               extracting_of st' = o_archive o /\
+                               files_of st' = (if o_archive o then 0 else o_nfiles o)
        | OpenErr => r = RErr EOpenFailed /\ st' = st
        end).
 Proof.
-  intros Hc. unfold step, spec_open, abs. rewrite Hc. cbn [String.eqb Ascii.eqb Bool.eqb].
+  intros Hc. unfold step, spec_open, abs, files_of, extracting_of. rewrite Hc. cbn [String.eqb Ascii.eqb Bool.eqb].
   unfold do_open, unwrap_chk. destruct (st_fc st) as [fc|]; cbn [is_some bind].
   - eexists _, _. split; [reflexivity|]. split; [auto|discriminate].
-  - destruct (o_open o); eexists _, _; (split; [reflexivity|]); (split; [discriminate|]); auto.
+  - destruct (o_open o); eexists _, _; (split; [reflexivity|]); (split; [discriminate|]); cbn; auto.
 Qed.
 
 Lemma existsb_sview id l : existsb (fun x => fst x =? id) (map sview l) = existsb (fun s => s_id s =? id) l.
@@ -572,7 +578,7 @@ Proof.
   intros Hc Ho Hoo.
   destruct (step_close_none st tc oc Hc) as [st1 [r1 [H1 A1]]].
   destruct (step_open_reply st1 t_open o_op Ho) as [st2 [r2 [H2 [_ Hn]]]].
-  rewrite A1 in Hn. specialize (Hn eq_refl). rewrite Hoo in Hn. destruct Hn as [-> A2].
+  rewrite A1 in Hn. specialize (Hn eq_refl). rewrite Hoo in Hn. destruct Hn as [-> [A2 _]].
   exists st1, r1, st2. auto.
 Qed.
 
